@@ -16,7 +16,7 @@ import importlib
 import os
 import sys
 
-DEFAULT_SRC = '/repo/soupsieve'
+DEFAULT_SRC = os.path.join(os.environ.get('SOUPVERIF_REPO', '/repo'), 'soupsieve')
 
 # ---------------------------------------------------------------------------------------------
 # small AST helpers
